@@ -326,7 +326,7 @@ def run_gen(cmds, timeout):
         open(outp, "w").write("\n".join(lines) + ("\n" if lines else ""))
 
 
-def trace_stage(ctx, name, cmds, module, nontrivial=None, timeout=None, keep=False):
+def trace_stage(ctx, name, cmds, module, nontrivial=None, timeout=None, keep=False, require=None):
     """Generate traces with the harness (cmds: list of (argv, relative outfile name)) and validate each with TLC.
     Results are cached under work/cache/<key> (key covers /repo sources, /verif spec+harness, argv)."""
     t0 = time.time()
@@ -347,6 +347,7 @@ def trace_stage(ctx, name, cmds, module, nontrivial=None, timeout=None, keep=Fal
     with ThreadPoolExecutor(max_workers=NCPU) as ex:
         results = list(ex.map(lambda f: tlc_trace_one(module, f, timeout) if os.path.getsize(f) > 0 else [], files))
     events = 0
+    classes = {}
     outcomes = 0
     distinct = set()
     mismatches = []
@@ -364,6 +365,8 @@ def trace_stage(ctx, name, cmds, module, nontrivial=None, timeout=None, keep=Fal
             op = ev.get("op", "?")
             ops[op] = ops.get(op, 0) + 1
             outcomes += _n_outcomes(ev)
+            for c in _classes(ev):
+                classes[c] = classes.get(c, 0) + 1
             if nontrivial is None or nontrivial(ev):
                 distinct.add(hsh)
             if len(samples) < 4 and i % 997 == 3:
@@ -376,7 +379,8 @@ def trace_stage(ctx, name, cmds, module, nontrivial=None, timeout=None, keep=Fal
     demo = binding_demo(module, files[0]) if files and os.path.getsize(files[0]) > 0 else None
     if demo and demo["missed"]:
         print(f"WARNING: binding demonstration for stage {name}: falsified events accepted by the specification: {demo['missed']}", file=sys.stderr)
-    res = dict(kind="trace", name=name, module=module, events=events, outcomes=outcomes, distinct_nontrivial=len(distinct), ops=ops, binding_demo=demo,
+    missing = [c for c in (require or []) if not any(k == c or k.startswith(c) for k in classes)]
+    res = dict(kind="trace", name=name, module=module, events=events, outcomes=outcomes, classes=dict(sorted(classes.items())[:400]), missing_classes=missing, distinct_nontrivial=len(distinct), ops=ops, binding_demo=demo,
                mismatches=mismatches, samples=samples, wall_s=round(time.time() - t0, 2),
                cmd=" ".join([os.path.basename(cmds[0][0][0])] + cmds[0][0][1:]) + f"  (x{len(cmds)} shards) | TLC {module}", cached=False)
     if not keep:
@@ -500,6 +504,51 @@ def _prune_cache(maxn=60):
         shutil.rmtree(d, ignore_errors=True)
 
 
+def _classes(ev):
+    """coarse outcome classes of an event, for the coverage table in the evidence (and the required-class guard)"""
+    op = ev.get("op", "?")
+    out = []
+    def rc(r):
+        if not isinstance(r, dict):
+            return "?"
+        if r.get("ok") == 1:
+            return "ok"
+        return str(r.get("err", "?"))
+    if op in ("rt", "dec", "cobs_take", "cobs_from", "io_ser", "cstr", "refused", "dyn_ser", "dyn_de", "df_end", "cobs_ops"):
+        out.append(f"{op}:{rc(ev.get('res'))}")
+        if op == "dec" and isinstance(ev.get("shape"), dict):
+            out.append(f"dec-shape:{ev['shape'].get('k')}")
+        if op == "rt":
+            out.append(f"enc:{ev.get('enc')}")
+            out.append(f"dec-entry:{ev.get('dec')}")
+    elif op == "feed":
+        out.append(f"feed:{ev.get('mode')}:{ev.get('kind')}")
+    elif op == "serb":
+        sig = "plain" if not ev.get("stack") else "+".join(l.get("l", "?") for l in ev["stack"])
+        for o in ev.get("outs", []):
+            out.append(f"serb:{sig}:{o.get('storage')}:{rc(o.get('res'))}")
+    elif op == "crc_deb":
+        w = ev.get("alg", {}).get("s")
+        for c in ev.get("cases", []):
+            out.append(f"crc{w}:{c[0]}:{'ok' if c[2][0] == 1 else c[2][1]}")
+    elif op == "io_de":
+        for m in ev.get("msgs", []):
+            out.append(f"io_de:{ev.get('entry')}:{rc(m.get('res'))}")
+    elif op == "alloc":
+        out.append(f"alloc:{ev.get('entry')}:{ev.get('ty')}")
+    elif op == "schema_tree":
+        out.append(f"schema_tree:{ev.get('tree', {}).get('k')}")
+    elif op == "conform":
+        out.append(f"conform:{ev.get('ty')}")
+    elif op == "maxsize":
+        out.append(f"maxsize:{ev.get('shape', {}).get('k')}")
+    elif op == "dyn":
+        out.append(f"dyn:{rc(ev.get('dyn_bytes'))}:{rc(ev.get('dyn_json'))}")
+    else:
+        out.append(op)
+    return out
+
+
 def _n_outcomes(ev):
     """number of individual implementation outcomes an event carries (batch events carry many)"""
     for k in ("outs", "cases", "msgs"):
@@ -615,6 +664,10 @@ def run_property(ctx, spec):
         print(f"{len(viol)} violation(s) in total; first event: {json.dumps(viol[0]['event'])[:400]}")
         print(f"expected by the specification: {json.dumps(viol[0]['expected'])[:400]}")
         return 1
+    # vacuity guard: with no violation to report, a run that did not exercise a required outcome class proves nothing
+    for st in ctx.stages:
+        if st.get("missing_classes"):
+            raise ToolError(f"stage {st['name']}: required outcome classes were not exercised by this run (refusing to claim the property): {st['missing_classes']}")
     tot_ev = sum(s.get("events", 0) for s in ctx.stages)
     tot_st = sum(s.get("states", 0) for s in ctx.stages)
     print(f"OK property={ctx.id} tier={ctx.tier}: {tot_st} model states, {tot_ev} implementation events validated by TLC, "
